@@ -108,6 +108,10 @@ def cases(tier, seed):
                 nm = nmax if name != 'hyperu' else (4 if tier == 'quick' else 7)
                 for (x, cls) in _points(name, TABLE[name][2], rng, tier):
                     out.append({'kind': 'smooth', 'seed': s, 'params': {'fn': name, 'prm': list(prm), 'x': x, 'cls': cls, 'nmax': nm}})
+            if name == 'hyperu':
+                # parameters spelled as integers (Python int, NumPy integer) and as floats, orders far beyond the generic sweep
+                for ia, a in enumerate([1, 3, 'int64:2', 7, 3.0, 'int32:5', 2]):
+                    out.append({'kind': 'hyperu_high', 'seed': case_seed('C16', seed, 'hyperu_high', ia), 'params': {'fn': name, 'a': a, 'nmax': 25 if tier == 'quick' else 40}})
             if name == 'polygamma':
                 out.append({'kind': 'polygamma_array', 'seed': case_seed('C16', seed, 'polygamma_array'), 'params': {'fn': name, 'nmax': 5}})
         elif name in PIECEWISE:
@@ -122,6 +126,9 @@ def required():
     return [n for n in ND.nthderiv.__all__ if n != 'np_filled_like']
 
 
+_PERSIST = {}
+
+
 def _call(f, prm, x, n, use_out):
     """use_out: 0 no out=, 1 fresh out buffer, 2 out aliases the input array"""
     xa = np.array([x, x])
@@ -130,6 +137,16 @@ def _call(f, prm, x, n, use_out):
         r = f(*(list(prm) + [xa]), out=out, n=n)
     elif use_out == 2:
         r = f(*(list(prm) + [xa]), out=xa, n=n)
+    elif n % 2 == 1:
+        # the caller keeps one argument array and writes each new point into it (x[:] = ...) before calling again
+        buf = _PERSIST.setdefault(xa.dtype.str, np.empty_like(xa))
+        buf[...] = xa * 0.9375           # the neighbouring point the buffer held in the previous call (result not used)
+        try:
+            f(*(list(prm) + [buf]), n=n)
+        except Exception:
+            pass
+        buf[...] = xa
+        r = f(*(list(prm) + [buf]), n=n)
     else:
         r = f(*(list(prm) + [xa]), n=n)
     val = np.array(r, copy=True)
@@ -146,6 +163,32 @@ def run_case(ctx, case):
     f = getattr(ND, name)
     if case['kind'] == 'unknown':
         ctx.skip('no-reference:' + name)
+        return
+    if case['kind'] == 'hyperu_high':
+        # d^n/dx^n U(a, b, x) = (-1)^n (a)_n U(a+n, b+n, x): reference from mpmath's own U and rising factorial
+        rng = gen.rng_of(case)
+        a = p['a']
+        if isinstance(a, str):
+            a = getattr(np, a.split(':')[0])(int(a.split(':')[1]))
+        for b in (1.5, 0.75, 2, 3):
+            for x in (0.7, float(np.round(rng.uniform(0.5, 3.0), 3)), 6.0):
+                for n in [int(v) for v in rng.permutation(np.arange(9, p['nmax'] + 1))[:8]] + [p['nmax']]:
+                    try:
+                        got = np.asarray(f(a, b, np.array([x, x]), n=n))
+                    except Exception as e:
+                        ctx.violation('hyperu:high-order:raises', {'a': repr(a), 'b': b, 'x': x, 'n': n, 'error': repr(e)[:160]}); return
+                    ush = mp.hyperu(mp.mpf(float(a)) + n, mp.mpf(float(b)) + n, mp.mpf(x))
+                    ref = (-1) ** n * mp.rf(mp.mpf(float(a)), n) * ush
+                    import scipy.special
+                    dep = float(scipy.special.hyperu(float(a) + n, float(b) + n, x))
+                    if not (np.isfinite(dep) and abs(mp.mpf(dep) - ush) <= 1e-6 * abs(ush)):
+                        # SciPy's own U is NaN / inaccurate at these shifted parameters (integer b, a + n >= 19): the library's documented
+                        # dependency, not its closed form, fails here
+                        ctx.skip('dependency-inaccurate:scipy.special.hyperu'); continue
+                    g = got.reshape(-1)[0] if got.size else np.nan
+                    if got.shape != (2,) or not (np.isfinite(g) and abs(mp.mpf(float(g)) - ref) <= 1e-5 * abs(ref)):
+                        ctx.violation('hyperu:high-order:value', {'a': repr(a), 'type_of_a': type(a).__name__, 'b': b, 'x': x, 'n': n, 'got': float(g), 'want': mp.nstr(ref, 17)}); return
+                    ctx.ok('hyperu', ('hyperu', 'high', type(a).__name__, n))
         return
     if case['kind'] == 'polygamma_array':
         # the order m given as an array (one order per point, the scipy idiom polygamma([0, 1, 2], x)), mixing 0 and non-zero orders
